@@ -6,9 +6,9 @@ set -u
 git -C /repo worktree remove --force $WT >/dev/null 2>&1; rm -rf $WT
 git -C /repo worktree add -q $WT HEAD || exit 3
 cd $WT
-PYTHONPATH=$WT:/verif/seeded:/tmp/seed_out:/tmp/seed3:/tmp/seed4:/tmp/seed5:/tmp/seed6:/tmp/seed7:/tmp/seed8:/tmp/seed9:$SRC timeout 300 /venv/bin/python $SRC/demo.py >/tmp/ev_$ID.clean.log 2>&1; C=$?
+PYTHONPATH=$WT:/verif/seeded:/tmp/seed_out:/tmp/seed3:/tmp/seed4:/tmp/seed5:/tmp/seed6:/tmp/seed7:/tmp/seed8:/tmp/seed9:/tmp/seed10:$SRC timeout 300 /venv/bin/python $SRC/demo.py >/tmp/ev_$ID.clean.log 2>&1; C=$?
 git apply $SRC/patch.diff || { echo "PATCH DOES NOT APPLY"; git -C /repo worktree remove --force $WT; exit 3; }
-PYTHONPATH=$WT:/verif/seeded:/tmp/seed_out:/tmp/seed3:/tmp/seed4:/tmp/seed5:/tmp/seed6:/tmp/seed7:/tmp/seed8:/tmp/seed9:$SRC timeout 300 /venv/bin/python $SRC/demo.py >/tmp/ev_$ID.changed.log 2>&1; D=$?
+PYTHONPATH=$WT:/verif/seeded:/tmp/seed_out:/tmp/seed3:/tmp/seed4:/tmp/seed5:/tmp/seed6:/tmp/seed7:/tmp/seed8:/tmp/seed9:/tmp/seed10:$SRC timeout 300 /venv/bin/python $SRC/demo.py >/tmp/ev_$ID.changed.log 2>&1; D=$?
 echo "demo: clean exit=$C changed exit=$D"
 if [ "${SKIP_TESTS:-0}" != "1" ]; then
   T=$(/venv/bin/python -m pytest -q -p no:cacheprovider --timeout=900 --continue-on-collection-errors 2>&1 | tail -1); echo "suite: $T"
